@@ -152,6 +152,17 @@ def run_for(ck):
             else:
                 ck.drifted(f"NewCtxRA violates {r.violated} with the code's protocol {k} but the real code passes on that schedule")
             continue
+        # liveness under fairness (the backend keeps running and eventually reads the newest message): no state constraint, no export
+        lcfg = vlib.write_cfg(vlib.BUILD / "cfg" / f"NewCtxRA_{label}_live.cfg",
+                              cfg_text(k, zs, False).replace("SPECIFICATION Spec", "SPECIFICATION FairSpec").replace("CONSTRAINT Bound\n", "")
+                              .replace("VIEW StateView\n", "") + "PROPERTY PickedUp\n")
+        rl = vlib.tlc("NewCtxRA", lcfg, timeout=600)
+        if rl.error:
+            raise vlib.Infra(rl.error)
+        ck.add_tlc(rl, f"NewCtxRA {label} liveness")
+        if rl.violated:
+            ck.drifted(f"NewCtxRA {label}: liveness property PickedUp fails in the model ({rl.violated}) although the safety invariants hold")
+        ck.extra.setdefault("liveness_checked", []).append(f"NewCtxRA {label}: PickedUp under FairSpec: {'violated' if rl.violated else 'holds'}")
         if quick:
             for a in ("ZReg", "ZFlag", "BClear"):
                 if not vlib.enabled(r, a):
